@@ -16,7 +16,12 @@ EXTRA_TARGETS = ["Extract/ExtractRebuild.vo"]
 AREAS = ["rebuild"]
 RULE = ("model tie: Metadata._check_parts vs the extracted safe_comp on every generated path element and vs check_parts_model on "
         "every generated element list; os.path.normpath(os.path.join(...)) vs the extracted resolve on every generated sequence; "
-        "refusal (ValueError from Metadata) vs checked_target = None on every v1 case.  End to end: hostile metafiles written with the "
+        "refusal (ValueError from Metadata) vs checked_target = None on every v1 case; Metadata(metafile) -- accepted with which name and "
+        "which entries (path / full as pathlib parts, filename, length, root), or refused -- vs the extracted metadata_of_bytes (model of "
+        "pyben.loads + Metadata.extract/_parse_tree) on every hostile metafile of the end-to-end search and on: every hostile element "
+        "(incl. absolute, non-UTF-8) at every key position of a file tree with sibling directories three levels deep (directory keys at "
+        "depth 1-3, leaf keys at depth 1-4, first and later siblings, empty directories, keys inside leaf nodes), names of every form, "
+        "v1 entries with further keys, single-file forms, odd shapes and random changes of shape.  End to end: hostile metafiles written with the "
         "reference encoder -- v1 `path` lists: ALL sequences of 1..3 (quick) / 1..4 (thorough) elements over {'', '.', '..', 'a', "
         "'a/b', '/abs', '..x', 'a/../../b'} ('/abs' = an absolute path inside the sandbox), chains of 1..12 '..' as separate elements "
         "and inside one element, elements of other types (int, non-UTF-8 bytes); v2 and hybrid `file tree` keys: each hostile element "
@@ -318,6 +323,7 @@ def ties(ctx, model_ok):
 
 def run(ctx, model_ok):
     ties(ctx, model_ok)
+    rc.extract_tie(ctx, model_ok)
     e2e(ctx, model_ok)
 
 
